@@ -921,3 +921,329 @@ func reexport(w *World, r *Report, rule string, run func(sub *Report), ids ...st
 		}
 	}
 }
+
+// ruleCycleCheckFirst: Build reports a cycle as a cycle: the checked cycle
+// detection comes before the lifetime and presence validation in the pipeline.
+// (A cyclic set that also has a lifetime conflict or a missing dependency on the
+// cycle must fail with the circular-dependency error; validating first reports
+// the other defect instead.)
+func ruleCycleCheckFirst(w *World, r *Report, rule string) {
+	ro := resolveRoles(w)
+	p := analysePipelineWith(w, nil)
+	d := ro.doBuild
+	info := d.Pkg.TypesInfo
+	n := 0
+	for _, nd := range p.flow.Nodes() {
+		for _, c := range callsIn(nd, false) {
+			cal := callee(info, c)
+			if cal == nil || w.Decls[cal] == nil {
+				continue
+			}
+			name := cal.Name()
+			if !strings.HasPrefix(name, "validate") || recvNamed(cal) == nil || recvNamed(cal).Obj().Name() != "collection" {
+				continue
+			}
+			n++
+			r.Check(p.must.Before[nd].Has("ok:DetectCycles"), rule, fmt.Sprintf("%s#%s-after-cycle-check", d.Name(), name), c.Pos(), true,
+				"the validation step runs only after the cycle check has succeeded",
+				name+" runs before (or without) the cycle check having succeeded: a cyclic registration set that also trips this validation is reported as a lifetime conflict or a missing service, not as a circular dependency")
+		}
+	}
+	if n == 0 {
+		r.Fail(rule, d.Name()+"#validation-steps", d.Decl.Pos(), "no validate* step of the collection found in the build pipeline")
+	}
+}
+
+// ruleLifetimeSource: a descriptor's Lifetime is the one the registration call
+// asked for: it is only ever given the Lifetime parameter of the function that
+// builds the descriptor, or copied from another descriptor. A constant (forcing
+// instances to Singleton, say) changes what lifetime validation sees.
+func ruleLifetimeSource(w *World, r *Report, rule string) {
+	n := 0
+	for _, fi := range w.FuncsOf(w.Godi) {
+		info := fi.Pkg.TypesInfo
+		check := func(v ast.Expr, pos token.Pos) {
+			n++
+			good := false
+			if o, ok := objOf(info, v).(*types.Var); ok && isParamOf(fi, info, o) {
+				good = true
+			}
+			if sel, ok := unparen(v).(*ast.SelectorExpr); ok && sel.Sel.Name == "Lifetime" {
+				if tv, ok := info.Types[sel.X]; ok && isNamedType(tv.Type, modPath, "Descriptor") {
+					good = true
+				}
+			}
+			r.Check(good, rule, fmt.Sprintf("%s#Descriptor.Lifetime/%d", fi.Name(), n), pos, false,
+				"the descriptor's Lifetime is the registration's (the Lifetime parameter, or a copy of the base descriptor's)",
+				"a descriptor's Lifetime is set to "+exprStr(v)+": the registration is validated (and cached, and disposed) under another lifetime than the one it was registered with")
+		}
+		ast.Inspect(fi.Decl.Body, func(x ast.Node) bool {
+			switch s := x.(type) {
+			case *ast.CompositeLit:
+				if tv, ok := info.Types[s]; ok && isNamedType(tv.Type, modPath, "Descriptor") {
+					if v, has := compositeFields(s)["Lifetime"]; has {
+						check(v, v.Pos())
+					}
+				}
+			case *ast.AssignStmt:
+				if len(s.Lhs) == len(s.Rhs) {
+					for i, l := range s.Lhs {
+						if fv := plainFieldOf(info, l); fv != nil && fv.Name() == "Lifetime" {
+							if tv, ok := info.Types[selBase(l)]; ok && isNamedType(tv.Type, modPath, "Descriptor") {
+								check(s.Rhs[i], s.Pos())
+							}
+						}
+					}
+				}
+			}
+			return true
+		})
+	}
+	if n == 0 {
+		r.Fail(rule, "Descriptor.Lifetime", token.NoPos, "no descriptor is given a Lifetime")
+	}
+}
+
+// ruleRecoverNeverRepanics: the function that recovers constructor panics turns
+// every recovered value into an error. A handler that panics again for some
+// values (run-time errors, say) lets a nil dereference in a constructor or a
+// scope initializer escape - past the cleanup of the half-built scope.
+func ruleRecoverNeverRepanics(w *World, r *Report, rule string) {
+	n := 0
+	for _, fi := range w.FuncsOf(w.Refl) {
+		info := fi.Pkg.TypesInfo
+		for _, lit := range funcLitsIn(fi.Decl.Body) {
+			recovers := false
+			for _, c := range callsIn(lit.Body, true) {
+				if id, ok := unparen(c.Fun).(*ast.Ident); ok && id.Name == "recover" {
+					if _, isB := info.Uses[id].(*types.Builtin); isB {
+						recovers = true
+					}
+				}
+			}
+			if !recovers {
+				continue
+			}
+			n++
+			bad := ""
+			for _, c := range callsIn(lit.Body, true) {
+				if isPanicCall(info, c) {
+					bad = w.Pos(c.Pos())
+				}
+			}
+			r.Check(bad == "", rule, fmt.Sprintf("%s#recover-handler/%d", fi.Name(), n), lit.Pos(), false,
+				"the recover handler never panics: every recovered value becomes an error",
+				"the recover handler panics again at "+bad+": some constructor panics escape the container (past the cleanup of a half-initialised scope) instead of being reported as a classifiable error")
+		}
+	}
+	if n == 0 {
+		r.Fail(rule, "reflection#recover-handler", token.NoPos, "no deferred function of the invoker calls recover()")
+	}
+}
+
+// ruleErrorResultNilCheckedOnValue: the invoker decides "the constructor
+// returned an error" on the reflect.Value (IsNil) before converting it to the
+// error interface. Converting first and comparing the interface with nil takes
+// a typed nil pointer of a concrete error type (func() (*T, *MyErr) returning
+// (t, nil)) for a failure: a working constructor is reported as failed.
+func ruleErrorResultNilCheckedOnValue(w *World, r *Report, rule string) {
+	n := 0
+	for _, fi := range w.FuncsOf(w.Refl) {
+		info := fi.Pkg.TypesInfo
+		callsCtor := false
+		for _, g := range w.Within(fi, 1) {
+			if callsReflectCall(g) {
+				callsCtor = true
+			}
+		}
+		if !callsCtor {
+			continue
+		}
+		ast.Inspect(fi.Decl.Body, func(x ast.Node) bool {
+			ta, ok := x.(*ast.TypeAssertExpr)
+			if !ok || ta.Type == nil {
+				return true
+			}
+			if tv, ok := info.Types[ta.Type]; !ok || !isErrorType(tv.Type) {
+				return true
+			}
+			c, ok := unparen(ta.X).(*ast.CallExpr)
+			if !ok {
+				return true
+			}
+			rcv, name, isM := methodCall(c)
+			if !isM || name != "Interface" || !isNamedType(info.TypeOf(rcv), "reflect", "Value") {
+				return true
+			}
+			n++
+			val := exprStr(resolveLocal(info, fi.Decl.Body, rcv, 1))
+			guarded := false
+			conds, vals := controllingCondsInfo(info, fi.Decl.Body, ta.Pos())
+			for i, cd := range conds {
+				e, neg := unparen(cd), false
+				if u, isU := e.(*ast.UnaryExpr); isU && u.Op == token.NOT {
+					e, neg = unparen(u.X), true
+				}
+				if cc, isC := e.(*ast.CallExpr); isC {
+					if r2, nm, ok := methodCall(cc); ok && nm == "IsNil" && isNamedType(info.TypeOf(r2), "reflect", "Value") {
+						if (exprStr(r2) == exprStr(rcv) || exprStr(resolveLocal(info, fi.Decl.Body, r2, 1)) == val) && vals[i] == neg {
+							guarded = true
+						}
+					}
+				}
+			}
+			r.Check(guarded, rule, fmt.Sprintf("%s#error-result/%d", fi.Name(), n), ta.Pos(), true,
+				"the result is converted to error only after IsNil() of the result value was found false",
+				"the constructor's result is converted to the error interface without a prior IsNil() test of the reflect.Value: a nil pointer of a concrete error type becomes a non-nil error, and a constructor that succeeded is reported as failed")
+			return true
+		})
+	}
+	if n == 0 {
+		r.Fail(rule, "reflection#error-result", token.NoPos, "no conversion of a constructor result to error found in the invoker")
+	}
+}
+
+// ruleTagValuesVerbatim: the name and group a struct tag asks for are the tag's
+// value, unchanged: registration options take the same strings verbatim, so any
+// normalisation on the tag side (cutting at a comma, trimming, lower-casing)
+// makes a field ask for another group or key than the one that was registered.
+func ruleTagValuesVerbatim(w *World, r *Report, rule string) {
+	n := 0
+	for _, fi := range w.FuncsOf(w.Refl) {
+		info := fi.Pkg.TypesInfo
+		// values bound directly by tag.Lookup / tag.Get
+		fromTag := map[types.Object]bool{}
+		ast.Inspect(fi.Decl.Body, func(x ast.Node) bool {
+			if as, ok := x.(*ast.AssignStmt); ok && len(as.Rhs) == 1 {
+				if c, ok := unparen(as.Rhs[0]).(*ast.CallExpr); ok {
+					if rcv, name, isM := methodCall(c); isM && (name == "Lookup" || name == "Get") && isNamedType(info.TypeOf(rcv), "reflect", "StructTag") {
+						fromTag[objOf(info, as.Lhs[0])] = true
+					}
+				}
+			}
+			return true
+		})
+		if len(fromTag) == 0 {
+			continue
+		}
+		ast.Inspect(fi.Decl.Body, func(x ast.Node) bool {
+			as, ok := x.(*ast.AssignStmt)
+			if !ok {
+				return true
+			}
+			for i, l := range as.Lhs {
+				fv := plainFieldOf(info, l)
+				if fv == nil || (fv.Name() != "Name" && fv.Name() != "Group") || !isStringType(fv.Type()) {
+					continue
+				}
+				if tv, ok := info.Types[selBase(l)]; !ok || !isNamedType(tv.Type, modPath+"/internal/reflection", "TagInfo") {
+					continue
+				}
+				n++
+				var rhs ast.Expr
+				if len(as.Lhs) == len(as.Rhs) {
+					rhs = as.Rhs[i]
+				} else if len(as.Rhs) == 1 {
+					rhs = as.Rhs[0]
+				}
+				good := rhs != nil && fromTag[objOf(info, rhs)]
+				if c, ok := unparen(rhs).(*ast.CallExpr); ok {
+					if rcv, name, isM := methodCall(c); isM && name == "Get" && isNamedType(info.TypeOf(rcv), "reflect", "StructTag") {
+						good = true
+					}
+				}
+				r.Check(good, rule, fmt.Sprintf("%s#TagInfo.%s", fi.Name(), fv.Name()), as.Pos(), false,
+					"the tag's "+strings.ToLower(fv.Name())+" is the tag value as written",
+					"TagInfo."+fv.Name()+" is "+exprStr(rhs)+", not the tag's value as written: a field asks for another "+strings.ToLower(fv.Name())+" than the registration option (which takes the string verbatim) filed the service under")
+			}
+			return true
+		})
+	}
+	if n < 2 {
+		r.Fail(rule, "reflection#tag-values", token.NoPos, "the tag parser's assignments of TagInfo.Name / TagInfo.Group were not found")
+	}
+}
+
+// ruleReflectIndexBounds: reflect.Type.In(i) / Out(i) / Field(i) panic when i is
+// out of range. Where i is a loop index, the loop's bound must be the matching
+// count of a reflect value (NumIn / NumOut / NumField, directly or through a
+// local), a constant - not the length of a Go slice that merely *usually* has as
+// many elements (the parameter list of a parameter-object constructor has one
+// entry per field, its signature one parameter).
+func ruleReflectIndexBounds(w *World, r *Report, rule string) {
+	n := 0
+	for _, p := range []*packages.Package{w.Godi, w.Refl} {
+		for _, fi := range w.FuncsOf(p) {
+			info := fi.Pkg.TypesInfo
+			// index variables of loops and their bound expressions
+			type loopB struct {
+				bound ast.Expr
+				rng   bool // range over a collection (bound = len(collection))
+			}
+			loops := map[types.Object]loopB{}
+			ast.Inspect(fi.Decl.Body, func(x ast.Node) bool {
+				switch s := x.(type) {
+				case *ast.ForStmt:
+					as, ok := s.Init.(*ast.AssignStmt)
+					be, ok2 := s.Cond.(*ast.BinaryExpr)
+					if ok && ok2 && len(as.Lhs) == 1 && (be.Op == token.LSS || be.Op == token.LEQ) && objOf(info, be.X) == objOf(info, as.Lhs[0]) {
+						loops[objOf(info, as.Lhs[0])] = loopB{be.Y, false}
+					}
+				case *ast.RangeStmt:
+					if s.Key != nil {
+						if o := objOf(info, s.Key); o != nil {
+							tv := info.TypeOf(s.X)
+							if b, isB := tv.Underlying().(*types.Basic); isB && b.Info()&types.IsInteger != 0 {
+								loops[o] = loopB{s.X, false}
+							} else {
+								loops[o] = loopB{s.X, true}
+							}
+						}
+					}
+				}
+				return true
+			})
+			isCount := func(e ast.Expr) bool {
+				e = resolveLocal(info, fi.Decl.Body, e, 2)
+				if _, ok := constInt(info, e); ok {
+					return true
+				}
+				c, ok := unparen(e).(*ast.CallExpr)
+				if !ok {
+					return false
+				}
+				rcv, name, isM := methodCall(c)
+				if !isM {
+					return false
+				}
+				t := info.TypeOf(rcv)
+				return (name == "NumIn" || name == "NumOut" || name == "NumField" || name == "Len" || name == "NumMethod") && (isNamedType(t, "reflect", "Type") || isNamedType(t, "reflect", "Value"))
+			}
+			for _, c := range callsIn(fi.Decl.Body, true) {
+				rcv, name, isM := methodCall(c)
+				if !isM || len(c.Args) != 1 || !(name == "In" || name == "Out" || name == "Field") || !isNamedType(info.TypeOf(rcv), "reflect", "Type") {
+					continue
+				}
+				lb, isLoop := loops[objOf(info, c.Args[0])]
+				if !isLoop {
+					continue // a constant or computed position: not this rule's business
+				}
+				n++
+				good := !lb.rng && isCount(lb.bound)
+				if lb.rng {
+					// range over a slice that was made with a reflect count: make([]T, t.NumIn())
+					e := resolveLocal(info, fi.Decl.Body, lb.bound, 2)
+					if mk, ok := unparen(e).(*ast.CallExpr); ok && exprStr(mk.Fun) == "make" && len(mk.Args) >= 2 && isCount(mk.Args[1]) {
+						good = true
+					}
+				}
+				r.Check(good, rule, fmt.Sprintf("%s#%s(%s)", fi.Name(), name, exprStr(c.Args[0])), c.Pos(), false,
+					"the position handed to reflect."+name+" is bounded by the matching count of a reflect value",
+					fmt.Sprintf("%s.%s(%s) is indexed by a loop bounded by %s, the size of a Go collection, not by the signature's own count: where the two differ (a parameter-object constructor has one parameter and one list entry per field) reflect panics with index out of range - outside any recover", exprStr(rcv), name, exprStr(c.Args[0]), exprStr(lb.bound)))
+			}
+		}
+	}
+	if n == 0 {
+		r.Fail(rule, "reflect-index-bounds", token.NoPos, "no reflect positional accessor indexed by a loop variable was found")
+	}
+}
